@@ -21,7 +21,7 @@ from .faultfs import SimCrash
 TEXT_MODES = ('w', 'a', 'r+', 'w+')
 BIN_MODES = ('wb', 'ab', 'r+b', 'w+b')
 WEAK_MODES = ('a+', 'x')
-NAMES = ['a.txt', 'b.itp', 'c.top', 'd.pdb', 'noext', 'e.tar.gz', '#odd#', 'sp ace.gro']
+NAMES = ['a.txt', 'b.itp', 'c.top', 'd.pdb', 'noext', 'e.tar.gz', '#odd#', 'sp ace.gro', 'chain[A].top', 'x*y?.itp', '[1-3].pdb']
 BACKUP_RE = re.compile(r'^#(?P<name>.*)\.(?P<idx>[1-9][0-9]*)#$')
 CRASH_STOP = object()
 
